@@ -69,6 +69,9 @@ def build_spec(case, kind_variant=None):
     linked = case["linked"]
     mcs = {"m1": S.mc_model(["s1", "s2"]), "m2": S.mc_model(["s2", "s3"])}
     ds = [S.dataset("d1", axis, n_model=6, megacomplexes=["m1"])]
+    if case.get("square_gm"):  # as many model points as global points, data stored as (global, model)
+        ds = [S.dataset("d1", axis, n_model=len(axis), megacomplexes=["m1"])]
+        ds[0]["layout"] = "gm"
     if linked:
         ds.append(S.dataset("d2", axis, n_model=5, megacomplexes=["m2"]))
     if case.get("pair"):
@@ -148,10 +151,14 @@ def observe(case):
         return zero_set, vs
     if kind == "relation":
         spec["relations"] = [{"source": "s1", "target": "s2", "parameter": 0.7, "interval": iv}]
+        if case.get("with_zero"):  # the relation's target is zero-constrained at the last axis point, outside the relation's interval
+            spec["constraints"] = [{"type": "zero", "target": "s2", "interval": [axis[-1], axis[-1]]}]
         res, _ = optimize_spec(spec)
         p = float(res.optimized_parameters.get("rel.1").value)
         c = res.data["d1"]["clp"]
         s1, s2 = c.sel(clp_label="s1").values, c.sel(clp_label="s2").values
+        if case.get("with_zero") and s2[-1] != 0.0:
+            vs.append(V("relation-acts-outside-its-interval-on-a-zero-constrained-target", got=float(s2[-1]), source=float(s1[-1])))
         return {i for i in range(len(axis)) if s2[i] == p * s1[i]}, vs
     if kind in ("weight_global", "weight_model"):
         wds = ["d0", "d1"] if case.get("pair") else ["d1"]
@@ -416,8 +423,23 @@ def run(run: core.Run):
                 B = B[::2] if kind.startswith("penalty") else B
             for lo, hi in itertools.product(B, B):
                 pair_cases.append({"axis": ax, "kind": kind, "linked": False, "pair": "twin", "intervals": [[enc(lo), enc(hi)]], "seed": run.seed})
+    extra = []
+    for ax in ("uniform5", "nonuniform5"):
+        axis = AXES[ax]
+        B = bound_alphabet(axis)
+        for lo, hi in itertools.product(B, B):
+            # square (global, model) data: the reported weight must sit on the dataset's own dimensions
+            for kind in ("weight_global", "weight_model"):
+                if kind == "weight_model" or not quick or (lo, hi) in list(itertools.product(B[::2], B[::2])):
+                    pass
+            if max(dec(enc(lo)), dec(enc(hi))) < axis[-2] + 0.5 * (axis[-1] - axis[-2]):
+                for linked in (False, True):
+                    extra.append({"axis": ax, "kind": "relation", "linked": linked, "with_zero": True, "intervals": [[enc(lo), enc(hi)]], "seed": run.seed})
+        for lo, hi in itertools.product(B[::2], B[::2]):
+            extra.append({"axis": ax, "kind": "weight_global", "linked": False, "square_gm": True, "intervals": [[enc(lo), enc(hi)]], "seed": run.seed})
     run.map("interval", cases)
     monotonicity(run, "interval")
+    run.map("interval", extra, part="interval-combinations")
     run.map("interval", pair_cases, part="interval-unlinked-pair")
     # combinations of two model weights (bounds on axis points so that the reference slice is unambiguous)
     wc = []
